@@ -453,6 +453,13 @@ func genCase(t *rapid.T) Case {
 				}
 			}
 			c.Ops = append(c.Ops, o)
+			if !tpl && rapid.IntRange(0, 1499).Draw(t, "many") == 0 {
+				// the same record many more times: sets that grow beyond what one message carries
+				for r := rapid.SampledFrom([]int{40, 150}).Draw(t, "times"); r > 0; r-- {
+					o.Path = (o.Path + 1) % 3
+					c.Ops = append(c.Ops, o)
+				}
+			}
 		case k <= 7:
 			c.Ops = append(c.Ops, Op{Kind: "update"})
 		default:
@@ -463,7 +470,46 @@ func genCase(t *rapid.T) Case {
 	return c
 }
 
+// longSets: histories that grow a set beyond what one message carries (65535 bytes): the set
+// builders have no size limit of their own (sending refuses such a set), and the three add paths
+// agree there as everywhere else.
+func longSets() []Case {
+	str := func(n int) ref.Value { return ref.Value{B: bytes.Repeat([]byte("x"), n)} }
+	sf := glue.UserField(ref.TString)
+	u := glue.UserField(ref.TU32)
+	var out []Case
+	for _, tc := range []struct{ n, strLen int }{{70, 1000}, {2, 65000}, {3, 65530}, {700, 100}} {
+		c := Case{Ops: []Op{{Kind: "prepare", ID: 256}}}
+		for k := 0; k < tc.n; k++ {
+			c.Ops = append(c.Ops, Op{Kind: "add", Path: k % 3, Fields: []ref.Field{u, sf}, Vals: []ref.Value{{U: uint64(k)}, str(tc.strLen)}})
+			if k%16 == 15 {
+				c.Ops = append(c.Ops, Op{Kind: "update"})
+			}
+		}
+		c.Ops = append(c.Ops, Op{Kind: "update"}, Op{Kind: "reset"}, Op{Kind: "prepare", Tpl: true, ID: 257}, Op{Kind: "add", Fields: []ref.Field{u, sf}}, Op{Kind: "update"})
+		out = append(out, c)
+	}
+	// a template set with 9000 template records of two fields (12 bytes each)
+	c := Case{Ops: []Op{{Kind: "prepare", Tpl: true, ID: 300}}}
+	for k := 0; k < 6000; k++ {
+		c.Ops = append(c.Ops, Op{Kind: "add", Path: k % 3, Fields: []ref.Field{u, sf}})
+	}
+	c.Ops = append(c.Ops, Op{Kind: "update"})
+	return append(out, c)
+}
+
 func TestC16(t *testing.T) {
+	if ev.Shard() <= 1 {
+		for _, c := range longSets() {
+			st := &Stats{}
+			f := runCase(c, st)
+			rec.Case(ev.Hash(c), true, "set_longer_than_a_message")
+			if f != nil {
+				rec.Violation("long_sets", c, f.Msg)
+				t.Fatalf("%s", f.Msg)
+			}
+		}
+	}
 	ev.Rapid(t, rec, "histories", rec.Scale(15000, 6000000), genCase, func(c Case) *ev.Failure {
 		st := &Stats{}
 		f := runCase(c, st)
